@@ -50,6 +50,8 @@ def one_fault(case, k):
     rep['changed'] = changed
     # only whole new tables (created by an earlier, already committed run_sql() of the same
     # executor), every pre-existing table untouched?
+    # (the content-type rows that post_migrate receivers write are data an upgrade leaves behind, too: they may only
+    # differ once every batch had been applied, i.e. when post_migrate had legitimately been sent before the fault)
     rep['only_new_tables'] = bool(changed) and set(changed) <= {'schema', 'rows'} and \
         all(after['schema'].get(t) == before['schema'][t] for t in before['schema']) and \
         all(after['rows'].get(t) == before['rows'][t] for t in before['rows']) and \
@@ -60,7 +62,7 @@ def one_fault(case, k):
     fault_after_all_applied = (sig_names.count('applying_evolution') == sig_names.count('applied_evolution') and
                                sig_names.count('creating_models') == sig_names.count('created_models') and
                                'TEMP_TABLE' not in after['schema'])
-    if bool(changed) and set(changed) <= {'schema', 'rows'} and fault_after_all_applied:
+    if bool(changed) and set(changed) <= {'schema', 'rows', 'content_types'} and fault_after_all_applied:
         rep['only_new_tables'] = True
     # F39 is about tables whose creation had COMPLETED (created_models sent) before a later step
     # failed; a fault inside the model creation itself must leave nothing behind
@@ -143,7 +145,7 @@ def run(ctx):
             if is_bookkeeping(rep['failed_sql']):
                 # outside the property's quantifier (the evolution's own statements all succeeded);
                 # what happens is recorded as finding F38 when it matches its description
-                if rep.get('changed') and set(rep['changed']) <= {'schema', 'rows', 'versions', 'sig'} and \
+                if rep.get('changed') and set(rep['changed']) <= {'schema', 'rows', 'content_types', 'versions', 'sig'} and \
                         'evolutions' not in rep['changed']:
                     book_witness = book_witness or dict(rep, what='bookkeeping write failed after the evolution was committed')
                 elif rep.get('changed'):
